@@ -132,7 +132,7 @@ def build(tier):
                     # (with the FIRST operand constant and the second free, `MAX / y' needs a full divider: does not finish at 32 or 64 bit)
                     tasks.append(op_task(u, tt, pp, op, ar, ext, extra_pre=among("y"), tag="bounded-y", bounded={"note": "second operand " + note + "; first operand and accumulator arbitrary"}, timeout=3400 if w == 64 else 1500))
                     continue
-                tasks.append(op_task(u, tt, pp, op, ar, ext))
+                tasks.append(op_task(u, tt, pp, op, ar, ext, timeout=2700 if (w == 16 and op in HEAVY) else 900))   # 16-bit multipliers / dividers: 2-15 minutes, more on a loaded machine
         for (op, ar, ext) in PREDS:
             tasks.append(op_task(u, tt, pp, op, ar, ext))
     mu, mt = mixed_tasks(tier); units += mu; tasks += mt
